@@ -250,6 +250,8 @@ fn ret_epilogue(w: &mut World, id: Cid, r: Res) {
         Res::Pend => Last::Pending,
         Res::Item(_) => Last::Item,
         Res::Panicked => Last::Pending,
+        // a non-fused stream that is polled again after `None` carries on with its script
+        Res::End if w.resumes(id) => Last::Item,
         _ => Last::Done,
     };
     w.ch[id].last = last;
@@ -572,9 +574,11 @@ pub fn node_exit(cid: Cid, flag: u8, parts: Vec<u64>) -> Res {
         if !is_root {
             ret_epilogue(w, cid, res.clone());
         } else {
+            let resumes = res == Res::End && w.ch[cid].fam == Fam::WaitS && w.ch[cid].kids.first().map(|k| w.resumes(*k)).unwrap_or(false);
             w.ch[cid].last = match res {
                 Res::Pend => Last::Pending,
                 Res::Item(_) => Last::Item,
+                _ if resumes => Last::Item,
                 _ => Last::Done,
             };
         }
